@@ -755,7 +755,7 @@ class Prov:
                 return env.attrs[p]
             if self.child_attrs is not None and n.attr not in self.child_attrs:
                 return OPAQUE          # pos, type, entry, constant_result ...: not a sub-tree
-            return Src(p)
+            return Src(p, simple=v.simple or _known_simple(env, p))
         if isinstance(v, Tree):
             return Tree(v.seq) if (self.child_attrs is None or n.attr in self.child_attrs) else OPAQUE
         return OPAQUE
@@ -785,7 +785,9 @@ class Prov:
         if k == 'unknown' or k is None:
             return Tree(seq_of(v)) if seq_of(v) else OPAQUE
         if isinstance(v, Src):
-            return Src(v.path + (('idx', k),))
+            if k == -1 and env.attrs.get(('maxlen',) + v.path) == 1:
+                k = 0           # a list known to have at most one element: its last element is its first
+            return Src(v.path + (('idx', k),), simple=v.simple or _known_simple(env, v.path + (('idx', k),)))
         if isinstance(v, ListV):
             if all(not isinstance(i, RunItem) for i in v.items) and -len(v.items) <= k < len(v.items):
                 return v.items[k]
@@ -1026,12 +1028,27 @@ class Prov:
             et.attrs[k], ef.attrs[k] = True, False
             return [(True, et), (False, ef)]
         target = None
-        if isinstance(test, ast.Call) and isinstance(test.func, ast.Attribute) and test.func.attr in SIMPLE_PREDICATES and isinstance(test.func.value, ast.Name):
-            target = test.func.value.id
-        elif isinstance(test, ast.Attribute) and test.attr in SIMPLE_ATTRS and isinstance(test.value, ast.Name):
-            target = test.value.id
+        if isinstance(test, ast.Call) and isinstance(test.func, ast.Attribute) and test.func.attr in SIMPLE_PREDICATES:
+            target = test.func.value
+        elif isinstance(test, ast.Attribute) and test.attr in SIMPLE_ATTRS:
+            target = test.value
+        # unwrap_coerced_node(x): a coercion wrapper around x evaluates nothing but x
+        while isinstance(target, ast.Call) and isinstance(target.func, ast.Name) and target.func.id in ('unwrap_coerced_node', 'unwrap_node') and len(target.args) == 1:
+            target = target.args[0]
+        if target is not None and not isinstance(target, ast.Name):
+            tv = None
+            if isinstance(target, ast.Subscript):
+                try:
+                    tv = self.ev(target, env)
+                    base = self.ev(target.value, env)
+                except Undecided:
+                    tv = base = None
+                if isinstance(base, Tree) and isinstance(target.value, ast.Name) and env.attrs.get(('maxlenv', target.value.id), 99) <= 1:
+                    # the only element of a helper-computed list: the list evaluates nothing but this element
+                    tv = Tree(base.seq)
+            target = None if not isinstance(tv, (Src, Tree)) else ('value', tv)
         if target is not None:
-            v = env.vars.get(target)
+            v = target[1] if isinstance(target, tuple) else env.vars.get(target.id)
             if isinstance(v, Src):
                 if v.simple:
                     return [(True, env)]
@@ -1066,6 +1083,17 @@ class Prov:
                 and test.left.func.id == 'len' and len(test.left.args) == 1 and isinstance(test.comparators[0], ast.Constant) and isinstance(test.comparators[0].value, int):
             v = self.ev(test.left.args[0], env)
             k = test.comparators[0].value
+            if isinstance(v, Tree) and isinstance(test.left.args[0], ast.Name):
+                # a list computed by a helper from source operands: remember the bound under the variable name
+                op = type(test.ops[0])
+                ub = {ast.Gt: (None, k), ast.GtE: (None, k - 1), ast.Lt: (k - 1, None), ast.LtE: (k, None), ast.Eq: (k, None), ast.NotEq: (None, k)}.get(op)
+                if ub:
+                    et, ef = env.copy(), env.copy()
+                    for e2, b in ((et, ub[0]), (ef, ub[1])):
+                        if b is not None:
+                            kk = ('maxlenv', test.left.args[0].id)
+                            e2.attrs[kk] = min(b, e2.attrs.get(kk, b))
+                    return [(True, et), (False, ef)]
             if isinstance(v, Src):
                 op = type(test.ops[0])
                 # (bound when the test is true, bound when it is false)
@@ -1077,6 +1105,15 @@ class Prov:
                             e2.attrs[('maxlen',) + v.path] = min(b, e2.attrs.get(('maxlen',) + v.path, b))
                     return [(True, et), (False, ef)]
         self.ev(test, env)
+        if isinstance(test, ast.Attribute) and isinstance(test.value, ast.Attribute) and test.value.attr == 'type' and test.attr.startswith('is_'):
+            # a test of the C type of an operand (x.type.is_pyobject): remembered, so that a finding that only exists for some
+            # operand types says so in its construct key, and the same test gives the same answer along one path
+            k = ('typeassume', ast.unparse(test))
+            if k in env.attrs:
+                return [(env.attrs[k], env)]
+            et, ef = env.copy(), env.copy()
+            et.attrs[k], ef.attrs[k] = True, False
+            return [(True, et), (False, ef)]
         return [(True, env.copy()), (False, env.copy())]
 
     # ---------------------------------------------------------------- statements
@@ -1175,6 +1212,9 @@ class Prov:
         return [env]
 
     def loop(self, s, env):
+        if isinstance(s.iter, ast.Name) and env.attrs.get(('assume', s.iter.id)) is False:
+            # the iterable was tested falsy on this path (`if xs and ...`): an empty list, no iteration
+            return self.block(s.orelse, [env]) if s.orelse else [env]
         it = self.ev(s.iter, env)
         if isinstance(s.iter, ast.Call) and isinstance(s.iter.func, ast.Name) and s.iter.func.id == 'enumerate' and s.iter.args \
                 and isinstance(s.target, ast.Tuple) and len(s.target.elts) == 2:
@@ -1292,6 +1332,13 @@ def _mark_simple(env, paths):
     for k, v in list(env.attrs.items()):
         if not isinstance(v, (int, bool, ListV)):
             env.attrs[k] = _strip(v, paths)
+    for p in paths:
+        env.attrs[('simple',) + tuple(p)] = True      # operands derived from this path later on are side-effect free as well
+
+
+def _known_simple(env, path):
+    path = tuple(path)
+    return any(env.attrs.get(('simple',) + path[:i]) is True for i in range(1, len(path) + 1))
 
 
 def _vkey(v):
@@ -1523,13 +1570,14 @@ def let_order_function(fn, class_order, node_class=None, child_attrs=None):
         _collect_refs(sq, refs, binds)
         for tid, what in sorted(refs.items()):
             if tid not in binds:
-                problems.append(('unbound', what, what, line, ' ; '.join(s.show() for s, _ in flatten(sq))))
+                problems.append(('unbound', what, what, line, ' ; '.join(s.show() for s, _ in flatten(sq)), ()))
         for kind, x, y in order_violations(sq, attr_order):
             # the construct: the pair of sibling operands whose order is inverted (paths cut after the first step that differs)
             n = 0
             while n < len(x.path) and n < len(y.path) and x.path[n] == y.path[n]:
                 n += 1
-            problems.append((kind, Src(x.path[:n + 1]).show(), Src(y.path[:n + 1]).show(), line, ' ; '.join(s.show() for s, _ in flatten(sq))))
+            facts = tuple(sorted((k[1], v) for k, v in e.attrs.items() if isinstance(k, tuple) and k and k[0] == 'typeassume'))
+            problems.append((kind, Src(x.path[:n + 1]).show(), Src(y.path[:n + 1]).show(), line, ' ; '.join(s.show() for s, _ in flatten(sq)), facts))
     return True, n, problems, ''
 
 
@@ -1578,11 +1626,19 @@ def rule_let_order(ctx):
             continue
         r.inst(key, sample='%s: %d rewritten result(s) with two or more operands' % (key, n), nontrivial=n > 0)
         seen = set()
-        for kind, x, y, line, seq in sorted(problems, key=lambda p: (len(p[4]), p)):
+        # operand-type facts shared by every path on which a finding exists: part of its construct key
+        common = {}
+        for kind, x, y, line, seq, facts in problems:
+            k = (kind, x, y)
+            common[k] = set(facts) if k not in common else common[k] & set(facts)
+        for kind, x, y, line, seq, facts in sorted(problems, key=lambda p: (len(p[4]), p[:5])):
             k = (kind, x, y)
             if k in seen:
                 continue
             seen.add(k)
+            if common.get(k):
+                qual = '@only-when(%s)' % ','.join('%s=%s' % f for f in sorted(common[k]))
+                y = y + qual
             if kind == 'unbound':
                 r.violate('%s:%s-never-evaluated' % (key, x), m.rel, line,
                           '%s moves %s into a temporary and uses the temporary in the returned tree, but never wraps it with EvalWithTempExprNode/LetNode: the operand is '
@@ -1598,7 +1654,7 @@ def rule_let_order(ctx):
         r.info('not decided: ' + u)
     pc = ast.parse(LET_POSITIVE).body[0]
     d, n, probs, note = let_order_function(pc, co)
-    r.positive_control(d and any(k == 'order' and y == 'args[0]' for k, x, y, l, s in probs), 'first argument evaluated after the temporaries of the others')
+    r.positive_control(d and any(k == 'order' and y == 'args[0]' for k, x, y, l, s, f in probs), 'first argument evaluated after the temporaries of the others')
     return r
 
 
